@@ -18,6 +18,7 @@ sys.path.insert(0, os.path.dirname(os.path.dirname(os.path.abspath(__file__))))
 import common as C  # noqa: E402
 import exedriver    # noqa: E402
 from props import c17_samplers as S  # noqa: E402
+from props import c17_reuse as RU  # noqa: E402
 from floatcmp import f2b, b2f  # noqa: E402
 
 GEN = ['BSF']
@@ -36,7 +37,11 @@ RULE = ('kernels: sampled portfolios (1..125 names, heterogeneous p in (0,1), in
         f'{S.DOFS} + random integer and non-integer values x flat correlations {S.RHOS} x portfolio sizes {S.SIZES}; '
         'per sample the distribution function the code applied vs SciPy (latents replayed from the seed), per name and '
         'horizon the exact binomial law of the simulated default count (fixed trial counts), per uniform the round trip '
-        'through the curve and the Lean model of uniform_to_default_time.')
+        'through the curve and the Lean model of uniform_to_default_time. Re-use: one CDSBasket (3 value_* methods) / '
+        'CDSTranche (4 builders) / CDSIndexPortfolio (7 methods) / StudentTCopula / LHPlusModel object taken through chains of '
+        'valuations, each step changing exactly one input (issuer curves, recovery, libor curve, libor argument, beta / '
+        'correlations, points / trials / seed / degrees of freedom, valuation date, n-to-default, method enum) and back, every '
+        'answer compared bit-for-bit with a fresh object; nth-to-default monotonicity on the re-used object; inputs unmodified.')
 
 # ---- tolerances (measured on the unchanged tree, see notes/C17.md) ---------------------------------
 TOL_MODEL = (1e-9, 1e-12)         # rtol, atol: model vs implementation, entry-wise (fastmath re-association/FMA)
@@ -597,6 +602,9 @@ def run(ctx):
 
     # =============================================================== 6. products: CDSTranche / CDSBasket
     products(ctx, meas, np, quick)
+
+    # =============================================================== 7. re-use: the object holds the contract, not the portfolio
+    RU.reuse(ctx, meas, np, quick)
 
     # =============================================================== correspondence: model vs implementation
     if drivers_ok and ops:
@@ -1180,6 +1188,8 @@ def replay(ctx, path):
         mass, mean = float(d.sum()), float((d * np.arange(len(d))).sum())
         print(f'replay {fn}: mass={mass!r} mean={mean!r} expected mean={float((p * lu).sum())!r} min={float(d.min())!r}')
         bad = abs(mass - 1) > TOL_MASS_GC or abs(mean - float((p * lu).sum())) > mean_tol(int(cs['num_integration_steps'])) * lu.sum() or d.min() < 0
+    elif fn == 'reuse':
+        bad = RU.replay_case(np, cs)
     elif fn in (S.T_NAME, S.G_NAME):
         keys = ['fn', 'value_dt', 'libor_flat_rate', 'cds_tenors', 'cds_spreads', 'recovery', 'flat_correlation', 'num_trials',
                 'seed', 'degrees_of_freedom']
